@@ -77,6 +77,9 @@ func cmdUnit(args []string) {
 			if len(want) > 0 && !want[k] {
 				continue
 			}
+			if tp.Contracts[k].Inline {
+				continue
+			}
 			units = append(units, e.verifyContract(tp.Contracts[k]))
 		}
 		var lemmas []*ssa.Function
@@ -148,6 +151,10 @@ func cmdUnit(args []string) {
 				}
 				if *keep {
 					fmt.Printf("        script: %s\n", o.Result.Script)
+				}
+				if os.Getenv("GOCV_DEBUG_MODEL") != "" && o.Result.Status == "sat" {
+					rp, _ := replayObligation(e, o, "/verif/out/debug", work)
+					fmt.Printf("        model dump: %s\n", rp)
 				}
 			}
 		}
